@@ -18,11 +18,11 @@ RULE = ("a hostile packet recipe (templates: V2 response, V3 handshake reply, V3
         "operators: header fields set to boundary values, ciphertext length not a multiple of 16, valid signature/tag recomputed "
         "over random or truncated ciphertext, bad PKCS#7 under a valid signature, empty payload, every type nibble, wrong key, "
         "clear data, splice/concatenate, arbitrary segmentation) is sent by the model device at a protocol phase (V2 send; V3 "
-        "handshake, data after authentication, re-authentication after 12 h) to one API level (LAN.authenticate/LAN.send, "
+        "handshake, data after authentication, re-authentication after 12 h; or pushed unsolicited on an idle established connection before the next call) to one API level (LAN.authenticate/LAN.send, "
         "Device.authenticate/Device._send_command, AirConditioner.refresh). Oracle: LAN calls end in list-of-bytes / ProtocolError "
         "(incl. AuthenticationError) / TimeoutError; Device.authenticate only AuthenticationError; Device._send_command returns a "
         "list; refresh() does not raise when the transport produced no frame. Non-trivial: hostile bytes pass marker+minimum "
-        "length of their layer or carry a valid signature/tag. Distinct by (recipe, phase, api, cuts).")
+        "length of their layer or carry a valid signature/tag. Timing: the hostile packet may arrive anywhere in, or within a loop iteration of the end of, the 2 s read window (loop run with 1 ms processing latency per iteration). Distinct by (recipe, phase, api, cuts, delay).")
 ASSUMPTIONS = ["exceptions raised inside protocol callbacks do not reach the caller; they are counted, not judged"]
 
 TOKEN = hashlib.sha512(b"c09 token").digest()
@@ -54,7 +54,7 @@ def check_case(case: dict):
                 key = conn.session_keys[-1] if conn.session_keys else None
                 data = hostile.build(recipe, key)
                 out["hostile"] = data
-                conn.send_stream(data, delay=dev_.latency, cuts=cuts)
+                conn.send_stream(data, delay=case.get("delay", dev_.latency), cuts=cuts)
                 return ("drop",)
             return None
 
@@ -114,7 +114,16 @@ def check_case(case: dict):
                 if phase == "reauth":
                     await lan.send(FRAME)
                     await asyncio.sleep(12 * 3600 + 5)
-            armed["on"] = True
+            if phase == "idle":
+                # the connection is established and idle; the peer pushes the hostile bytes unsolicited, then the user calls again
+                await lan.send(FRAME)
+                conn = dev.conns[-1]
+                data = hostile.build(recipe, conn.session_keys[-1] if conn.session_keys else None)
+                out["hostile"] = data
+                conn.send_stream(data, delay=0.01, cuts=cuts)
+                await asyncio.sleep(0.05)
+            else:
+                armed["on"] = True
             out["call"] = "send"
             if api == "lan":
                 out["result"] = await obj.send(FRAME)
@@ -131,7 +140,7 @@ def check_case(case: dict):
             except Exception:
                 pass
 
-    vloop.run(main, net)
+    vloop.run(main, net, tick=case.get("tick", 0.0))
     exc = out.get("exc")
     call = out.get("call")
     if call is None:
@@ -189,7 +198,7 @@ def _nontrivial(case) -> bool:
 
 def _run_one(ctx, case):
     import json
-    key = hash((json.dumps(case["hostile"], sort_keys=True), case["version"], case["phase"], case["api"], tuple(case.get("cuts", []))))
+    key = hash((json.dumps(case["hostile"], sort_keys=True), case["version"], case["phase"], case["api"], tuple(case.get("cuts", [])), case.get("delay"), case.get("tick")))
     nt = _nontrivial(case)
     cls = f"v{case['version']}/{case['phase']}/{case['api']}"
     ctx.case(key, nt, cls=cls)
@@ -234,12 +243,27 @@ def _catalogue():
     for r in v2:
         for api in ("lan", "device", "ac"):
             cases.append({"version": 2, "phase": "send", "api": api, "hostile": r, "cuts": []})
+    for r in v2:
+        for api in ("lan", "device", "ac"):
+            cases.append({"version": 2, "phase": "idle", "api": api, "hostile": r, "cuts": []})
     for r in v3 + v2:
-        for phase in ("auth", "send", "reauth"):
+        for phase in ("auth", "send", "reauth", "idle"):
             for api in ("lan", "device", "ac"):
                 if api == "ac" and phase == "auth":
                     continue
                 cases.append({"version": 3, "phase": phase, "api": api, "hostile": r, "cuts": []})
+    # timing edge: the hostile packet arrives within one loop iteration of the end of the 2 s read window (the loop
+    # is run with a processing latency of 1 ms per iteration), for every type nibble
+    for pt in range(16):
+        for j in range(0, 14):
+            d = round(2.0 - j * 0.00025, 6)
+            for api in ("lan", "device"):
+                r = {"t": "v3", "ptype": pt, "inner": {"t": "raw", "data": bytes(64).hex()}, "enc": "clear", "tag": "none"}
+                cases.append({"version": 3, "phase": "send", "api": api, "hostile": r, "cuts": [], "delay": d, "tick": 0.001})
+        for j in range(0, 14, 3):
+            d = round(2.0 - j * 0.00025, 6)
+            cases.append({"version": 3, "phase": "send", "api": "lan", "hostile": {"t": "v3", "ptype": pt, "inner": {"t": "v2"}, "enc": "ok", "tag": "ok"},
+                          "cuts": [], "delay": d, "tick": 0.001})
     return cases
 
 
@@ -251,10 +275,11 @@ def run(ctx) -> None:
     ctx.sweep("boundary catalogue x phases x api levels", len(cat), True)
 
     def cases(version):
-        phases = ["send"] if version == 2 else ["auth", "send", "send", "reauth"]
+        phases = ["send", "send", "idle"] if version == 2 else ["auth", "send", "send", "reauth", "idle"]
         return st.fixed_dictionaries({
             "version": st.just(version), "phase": st.sampled_from(phases), "api": st.sampled_from(["lan", "lan", "device", "ac"]),
-            "hostile": hostile.recipes(version), "cuts": gens.cut_sets(200, 4)}).map(
+            "hostile": hostile.recipes(version), "cuts": gens.cut_sets(200, 4)},
+            optional={"delay": st.sampled_from([0.05, 1.0, 1.9985, 1.999, 1.9995, 2.0, 2.0005, 3.999, 5.9995]), "tick": st.sampled_from([0.0, 0.001])}).map(
                 lambda c: dict(c, api="lan") if (c["api"] == "ac" and c["phase"] == "auth") else c)
 
     ctx.hyp("v3", cases(3), lambda c: _run_one(ctx, c), ctx.n(6000, 400000))
